@@ -36,7 +36,21 @@ ASSUMPTIONS = [
     "integer indexing to a single element must give the object-backend class of the same flavor and dimension with identical coordinates and coordinate system",
 ]
 CAP_S = {"quick": 900, "thorough": 3600}
-SHAPES = [(), (1,), (3,), (2, 2), (0,), (2, 1, 2)]
+SHAPES = [(), (1,), (3,), (2, 2), (0,), (2, 1, 2), (2, 3), (2, 3, 2)]
+
+
+def _layouts(shape, tier):
+    """memory layouts of the same elements: the property is about arrays *of vectors*, so it must not depend on how the
+    records are laid out (C / Fortran order, transposed, reversed or strided views)"""
+    out = [("C", lambda a: a)]
+    if len(shape) >= 1 and shape[0] > 1:
+        out.append(("reversed", lambda a: a[::-1]))
+        out.append(("strided", lambda a: a[::2]))
+    if len(shape) >= 2:
+        out.append(("T", lambda a: a.T))
+        out.append(("F", lambda a: a.copy(order="F")))
+        out.append(("swapaxes", lambda a: a.swapaxes(0, -1)[..., ::-1]))
+    return out
 OBJCLS = {("generic", 2): vector.VectorObject2D, ("generic", 3): vector.VectorObject3D, ("generic", 4): vector.VectorObject4D,
           ("momentum", 2): vector.MomentumObject2D, ("momentum", 3): vector.MomentumObject3D, ("momentum", 4): vector.MomentumObject4D}
 NPCLS = {("generic", 2): vector.VectorNumpy2D, ("generic", 3): vector.VectorNumpy3D, ("generic", 4): vector.VectorNumpy4D,
@@ -45,7 +59,7 @@ SYN = {"x": ["px"], "y": ["py"], "rho": ["pt"], "z": ["pz"], "t": ["E", "e", "en
 
 
 def bounds(tier):
-    return {"tier": tier, "shapes": [list(s) for s in SHAPES], "systems": 20, "flavors": 2, "pickle_protocols": list(range(0, pickle.HIGHEST_PROTOCOL + 1)),
+    return {"tier": tier, "shapes": [list(s) for s in SHAPES], "systems": 20, "flavors": 2, "layouts": ["C", "reversed", "strided", "T", "F", "swapaxes+reversed"], "pickle_protocols": list(range(0, pickle.HIGHEST_PROTOCOL + 1)),
             "index_grammar": "ints and negative ints per axis, integer tuples, slices {None,0,1,-1} x steps {None,2,-1}, all boolean masks (size <= 4), Ellipsis, None, integer arrays"}
 
 
@@ -123,117 +137,122 @@ def check(res: Result, dim, system, tier, only=None):
             if n == 0:
                 arr = arr[:0]
             arr = arr.reshape(shape)
-            plain = np.array(arr.view(np.ndarray), copy=True)
-            base = {"sys": list(system), "flavor": flavor, "shape": list(shape)}
+            arr0 = arr
+            for lname, lay in _layouts(shape, tier):
+                arr = lay(arr0)
+                shape = arr.shape
+                n = int(np.prod(shape)) if shape else 1
+                plain = lay(np.array(arr0.view(np.ndarray), copy=True))
+                base = {"sys": list(system), "flavor": flavor, "shape": list(shape), "layout": lname}
 
-            def case_(kind, expr):
-                return dict(base, kind=kind, expr=expr)
+                def case_(kind, expr):
+                    return dict(base, kind=kind, expr=expr)
 
-            def begin():
-                res.states += 1
-                res.evaluations += 1
-                res.transitions += 1
-                res.traces += 1
+                def begin():
+                    res.states += 1
+                    res.evaluations += 1
+                    res.transitions += 1
+                    res.traces += 1
 
-            def viol(kind, what, msg, expr):
-                res.violation(f"{kind}|{what}|{L.sysname(system)}|{flavor}|shape{shape}", msg, case_(kind, expr))
+                def viol(kind, what, msg, expr):
+                    res.violation(f"{kind}|{what}|{L.sysname(system)}|{flavor}|shape{tuple(shape)}|{lname}", msg, case_(kind, expr))
 
-            def same_array(r, want, kind, expr, need_class=True):
-                """r: vector array result, want: plain ndarray with the expected elements"""
-                if need_class and type(r) is not cls:
-                    viol(kind, "class", f"{expr}: result class {type(r).__name__}, expected {cls.__name__}", expr)
-                    return False
-                rp = np.asarray(r.view(np.ndarray))
-                if rp.shape != want.shape or rp.dtype.names != want.dtype.names or rp.tobytes() != np.ascontiguousarray(want).tobytes():
-                    viol(kind, "value", f"{expr}: result {rp.tolist()} (shape {rp.shape}) differs from plain-ndarray semantics {want.tolist()} (shape {want.shape})", expr)
-                    return False
-                if need_class and (B.system_of_fields(r.dtype.names) != tuple(system)):
-                    viol(kind, "system", f"{expr}: coordinate system {B.system_of_fields(r.dtype.names)}, expected {system}", expr)
-                    return False
-                return True
+                def same_array(r, want, kind, expr, need_class=True):
+                    """r: vector array result, want: plain ndarray with the expected elements"""
+                    if need_class and type(r) is not cls:
+                        viol(kind, "class", f"{expr}: result class {type(r).__name__}, expected {cls.__name__}", expr)
+                        return False
+                    rp = np.asarray(r.view(np.ndarray))
+                    if rp.shape != want.shape or rp.dtype.names != want.dtype.names or rp.tobytes() != np.ascontiguousarray(want).tobytes():
+                        viol(kind, "value", f"{expr}: result {rp.tolist()} (shape {rp.shape}) differs from plain-ndarray semantics {want.tolist()} (shape {want.shape})", expr)
+                        return False
+                    if need_class and (B.system_of_fields(r.dtype.names) != tuple(system)):
+                        viol(kind, "system", f"{expr}: coordinate system {B.system_of_fields(r.dtype.names)}, expected {system}", expr)
+                        return False
+                    return True
 
-            # ---------------------------------------------------------------- indexing
-            for e in index_expressions(shape):
-                expr = f"arr[{describe_index(e)}]"
-                if only and only != "index":
-                    break
-                try:
-                    want = plain[e]
-                except Exception:  # noqa: BLE001
-                    continue  # not a valid index for a plain array of this shape
-                begin()
-                try:
-                    r = arr[e]
-                except Exception as ex:  # noqa: BLE001
-                    viol("index", "raises", f"{expr} raised {type(ex).__name__}: {ex}; the plain array gives {want!r}", expr)
-                    continue
-                if isinstance(want, np.void):
-                    ocls = OBJCLS[(flavor, dim)]
-                    if type(r) is not ocls:
-                        viol("index", "element_class", f"{expr} is {type(r).__name__}, expected {ocls.__name__}", expr)
-                        continue
-                    rs, rst = L.system_of(r)
-                    if rs != tuple(system) or tuple(float(v) for v in rst) != tuple(float(want[nm]) for nm in names):
-                        viol("index", "element_value", f"{expr} = {r!r}, the element is {want!r} in system {system}", expr)
-                        continue
-                else:
-                    if not same_array(r, want, "index", expr):
-                        continue
-                    if n and np.size(want) and not np.shares_memory(r.view(np.ndarray), arr.view(np.ndarray)) and isinstance(e, (slice, tuple)) and not any(isinstance(x, (np.ndarray, list)) for x in (e if isinstance(e, tuple) else (e,))):
-                        viol("index", "not_a_view", f"{expr} does not share memory with the array (plain slicing gives a view)", expr)
-                        continue
-                res.nontrivial += 1
-            if only in (None, "misc"):
-                # ------------------------------------------------------------ reshapes, views, transposes, copies
-                ops = {
-                    "arr.reshape(-1)": (lambda a: a.reshape(-1), True), "arr.T": (lambda a: a.T, True), "arr.ravel()": (lambda a: a.ravel(), True),
-                    "arr.view(ndarray).view(cls)": (lambda a: a.view(np.ndarray).view(cls) if isinstance(a, vector.backends.numpy.VectorNumpy) else a, True),
-                    "arr.copy()": (lambda a: a.copy(), True), "copy.copy(arr)": (lambda a: copy.copy(a), True), "copy.deepcopy(arr)": (lambda a: copy.deepcopy(a), True),
-                    "arr[...].reshape(shape + (1,))": (lambda a: a.reshape(a.shape + (1,)), True), "arr.reshape(shape + (1,)).squeeze(-1)": (lambda a: a.reshape(a.shape + (1,)).squeeze(-1), True),
-                    "arr.flatten()": (lambda a: a.flatten(), True), "arr.T.copy(order='C')": (lambda a: a.T.copy(order="C"), True),
-                    "arr.astype(arr.dtype)": (lambda a: a.astype(a.dtype), True),
-                }
-                for proto in range(0, pickle.HIGHEST_PROTOCOL + 1):
-                    ops[f"pickle.loads(pickle.dumps(arr, {proto}))"] = ((lambda p: lambda a: pickle.loads(pickle.dumps(a, p)))(proto), True)
-                for expr, (f, need_class) in ops.items():
+                # ---------------------------------------------------------------- indexing
+                for e in index_expressions(shape):
+                    expr = f"arr[{describe_index(e)}]"
+                    if only and only != "index":
+                        break
+                    try:
+                        want = plain[e]
+                    except Exception:  # noqa: BLE001
+                        continue  # not a valid index for a plain array of this shape
                     begin()
                     try:
-                        want = f(plain)
-                        r = f(arr)
+                        r = arr[e]
                     except Exception as ex:  # noqa: BLE001
-                        viol("view", "raises", f"{expr} raised {type(ex).__name__}: {ex}", expr)
+                        viol("index", "raises", f"{expr} raised {type(ex).__name__}: {ex}; the plain array gives {want!r}", expr)
                         continue
-                    if not isinstance(r, np.ndarray):
-                        viol("view", "class", f"{expr} returned {type(r).__name__}", expr)
-                        continue
-                    if not same_array(r, np.asarray(want), "view", expr, need_class=need_class):
-                        continue
-                    if need_class and isinstance(r, vector.backends.numpy.VectorNumpy) and n:
-                        # the result is still usable as a vector array
-                        try:
-                            np.asarray(r.rho)
-                        except Exception as ex:  # noqa: BLE001
-                            viol("view", "unusable", f"{expr}: the result cannot compute .rho: {type(ex).__name__}: {ex}", expr)
+                    if isinstance(want, np.void):
+                        ocls = OBJCLS[(flavor, dim)]
+                        if type(r) is not ocls:
+                            viol("index", "element_class", f"{expr} is {type(r).__name__}, expected {ocls.__name__}", expr)
+                            continue
+                        rs, rst = L.system_of(r)
+                        if rs != tuple(system) or tuple(float(v) for v in rst) != tuple(float(want[nm]) for nm in names):
+                            viol("index", "element_value", f"{expr} = {r!r}, the element is {want!r} in system {system}", expr)
+                            continue
+                    else:
+                        if not same_array(r, want, "index", expr):
+                            continue
+                        if n and np.size(want) and not np.shares_memory(r.view(np.ndarray), arr.view(np.ndarray)) and isinstance(e, (slice, tuple)) and not any(isinstance(x, (np.ndarray, list)) for x in (e if isinstance(e, tuple) else (e,))):
+                            viol("index", "not_a_view", f"{expr} does not share memory with the array (plain slicing gives a view)", expr)
                             continue
                     res.nontrivial += 1
-                # ------------------------------------------------------------ column access
-                for gname, fname in zip(names, fnames):
-                    for key in [gname] + (SYN.get(gname, []) if flavor == "momentum" else []):
-                        expr = f"arr[{key!r}]"
+                if only in (None, "misc"):
+                    # ------------------------------------------------------------ reshapes, views, transposes, copies
+                    ops = {
+                        "arr.reshape(-1)": (lambda a: a.reshape(-1), True), "arr.T": (lambda a: a.T, True), "arr.ravel()": (lambda a: a.ravel(), True),
+                        "arr.view(ndarray).view(cls)": (lambda a: a.view(np.ndarray).view(cls) if isinstance(a, vector.backends.numpy.VectorNumpy) else a, True),
+                        "arr.copy()": (lambda a: a.copy(), True), "copy.copy(arr)": (lambda a: copy.copy(a), True), "copy.deepcopy(arr)": (lambda a: copy.deepcopy(a), True),
+                        "arr[...].reshape(shape + (1,))": (lambda a: a.reshape(a.shape + (1,)), True), "arr.reshape(shape + (1,)).squeeze(-1)": (lambda a: a.reshape(a.shape + (1,)).squeeze(-1), True),
+                        "arr.flatten()": (lambda a: a.flatten(), True), "arr.T.copy(order='C')": (lambda a: a.T.copy(order="C"), True),
+                        "arr.astype(arr.dtype)": (lambda a: a.astype(a.dtype), True),
+                    }
+                    for proto in range(0, pickle.HIGHEST_PROTOCOL + 1):
+                        ops[f"pickle.loads(pickle.dumps(arr, {proto}))"] = ((lambda p: lambda a: pickle.loads(pickle.dumps(a, p)))(proto), True)
+                    for expr, (f, need_class) in ops.items():
                         begin()
                         try:
-                            r = arr[key]
+                            want = f(plain)
+                            r = f(arr)
                         except Exception as ex:  # noqa: BLE001
-                            viol("column", "raises", f"{expr} raised {type(ex).__name__}: {ex}", expr)
+                            viol("view", "raises", f"{expr} raised {type(ex).__name__}: {ex}", expr)
                             continue
-                        want = plain[gname]
-                        if type(r) is not np.ndarray or r.shape != want.shape or r.tobytes() != want.tobytes():
-                            viol("column", "value", f"{expr} = {r!r}, the stored column is {want!r}", expr)
+                        if not isinstance(r, np.ndarray):
+                            viol("view", "class", f"{expr} returned {type(r).__name__}", expr)
                             continue
-                        if n and not np.shares_memory(r, arr.view(np.ndarray)):
-                            viol("column", "not_a_view", f"{expr} does not share memory with the array", expr)
+                        if not same_array(r, np.asarray(want), "view", expr, need_class=need_class):
                             continue
+                        if need_class and isinstance(r, vector.backends.numpy.VectorNumpy) and n:
+                            # the result is still usable as a vector array
+                            try:
+                                np.asarray(r.rho)
+                            except Exception as ex:  # noqa: BLE001
+                                viol("view", "unusable", f"{expr}: the result cannot compute .rho: {type(ex).__name__}: {ex}", expr)
+                                continue
                         res.nontrivial += 1
+                    # ------------------------------------------------------------ column access
+                    for gname, fname in zip(names, fnames):
+                        for key in [gname] + (SYN.get(gname, []) if flavor == "momentum" else []):
+                            expr = f"arr[{key!r}]"
+                            begin()
+                            try:
+                                r = arr[key]
+                            except Exception as ex:  # noqa: BLE001
+                                viol("column", "raises", f"{expr} raised {type(ex).__name__}: {ex}", expr)
+                                continue
+                            want = plain[gname]
+                            if type(r) is not np.ndarray or r.shape != want.shape or r.tobytes() != want.tobytes():
+                                viol("column", "value", f"{expr} = {r!r}, the stored column is {want!r}", expr)
+                                continue
+                            if n and not np.shares_memory(r, arr.view(np.ndarray)):
+                                viol("column", "not_a_view", f"{expr} does not share memory with the array", expr)
+                                continue
+                            res.nontrivial += 1
         # -------------------------------------------------------------------- array forms of objects
         if only in (None, "object"):
             row = rows_for(dim, system, 1)[0]
